@@ -20,7 +20,9 @@
 (* column is absent) whenever the ids are a permutation of 0..k-1 and cfg.tf is the       *)
 (* print format in force at write time; no Write or Read changes the global formats;      *)
 (* a network survives Write / Read for both header options (Legacy: the reader eats a      *)
-(* row when header = 0 - refuted).  The same model, run as a generator, prints the          *)
+(* row when header = 0 - refuted); a coordinate whose integer part is the no-data value      *)
+(* but which is not the no-data value is read back like any other (Legacy: the reader         *)
+(* truncated before comparing - refuted).  The same model, run as a generator, prints the          *)
 (* configurations / histories with the expectation the specification assigns; the            *)
 (* driver replays them through real files (spec -> code).                                    *)
 (***************************************************************************)
@@ -49,18 +51,28 @@ DistinctIds(c) == Cardinality({x[1] : x \in Cols(c)}) = Cardinality(Cols(c))
 WriteCsv(c, pf) == [rows |-> [k \in 1..NObs |-> [j \in DOMAIN SortCols(Cols(c)) |-> <<SortCols(Cols(c))[j], k>>]], pf |-> pf]
 \* the reader: absolute indices; "raise" when an index is out of the row
 FieldAt(row, id) == IF id + 1 \in DOMAIN row THEN row[id + 1] ELSE <<"missing", 0>>
+\* The no-data rule of the reader: a row whose E or N field IS the no-data value of the format (-999999) becomes a
+\* no-data observation (all three coordinates replaced).  c.near names a datum of observation 1 that is a NEAR-SENTINEL
+\* value: its integer part is the no-data value but it is not the no-data value (-999999.4 m is an ordinary ECEF / ENU
+\* coordinate).  Exact no-data values are outside the domain.  Legacy: the pinned reader compared the INTEGER PART.
+IsNear(c, f) == c.near # "-" /\ f = <<c.near, 1>>
+NoDataHit(c, f) == Legacy /\ IsNear(c, f)
 ReadObs(row, c, pf) ==
-   [e |-> FieldAt(row, c.e), n |-> FieldAt(row, c.n),
-    u |-> IF c.u = -1 THEN <<"zero", 0>> ELSE FieldAt(row, c.u),
-    t |-> IF c.t = -1 THEN <<"epoch", 0>>
-          ELSE LET f == FieldAt(row, c.t) IN IF f[1] = "T" /\ pf # c.tf THEN <<"garbled", f[2]>> ELSE f]
+   LET tm == IF c.t = -1 THEN <<"epoch", 0>>
+             ELSE LET f == FieldAt(row, c.t) IN IF f[1] = "T" /\ pf # c.tf THEN <<"garbled", f[2]>> ELSE f
+   IN IF NoDataHit(c, FieldAt(row, c.e)) \/ NoDataHit(c, FieldAt(row, c.n))
+      THEN [e |-> <<"nodata", 0>>, n |-> <<"nodata", 0>>, u |-> <<"nodata", 0>>, t |-> tm]
+      ELSE [e |-> FieldAt(row, c.e), n |-> FieldAt(row, c.n),
+            u |-> IF c.u = -1 THEN <<"zero", 0>> ELSE FieldAt(row, c.u), t |-> tm]
 ReadCsv(file, c) == [k \in DOMAIN file.rows |-> ReadObs(file.rows[k], c, file.pf)]
 \* what the property promises for observation k
 Want(c, k) == [e |-> <<"E", k>>, n |-> <<"N", k>>, u |-> IF c.u = -1 THEN <<"zero", 0>> ELSE <<"U", k>>,
                t |-> IF c.t = -1 THEN <<"epoch", 0>> ELSE <<"T", k>>]
 RoundTripOK(c, pf) == ReadCsv(WriteCsv(c, pf), c) = [k \in 1..NObs |-> Want(c, k)]
 
-Cfgs == {c \in [e : 0..3, n : 0..3, u : -1..3, t : -1..3, sep : Seps, srid : Srids, tf : Fmts] : DistinctIds(c)}
+Nears == {"-", "E", "N"}        \* geographic coordinates cannot come near the no-data value
+Cfgs == {c \in [e : 0..3, n : 0..3, u : -1..3, t : -1..3, sep : Seps, srid : Srids, tf : Fmts, near : Nears] :
+            DistinctIds(c) /\ (c.srid = "GEO" => c.near = "-")}
 PermCfgs == {c \in Cfgs : IsPerm(c)}
 
 (* ---- networks ------------------------------------------------------------------------ *)
@@ -75,8 +87,8 @@ Nets == {[edges |-> es, h |-> h, sep |-> sp] : es \in UNION {[1..m -> EdgeSet] :
 
 (* ---- histories over the global formats ---------------------------------------------------- *)
 \* files: "A", "B" (csv written with cfgA / cfgB) and "G" (gpx); kind "none" = not written yet
-CfgA == [e |-> 0, n |-> 1, u |-> 2, t |-> 3, sep |-> "c", srid |-> "ENU", tf |-> 1]
-CfgB == [e |-> 2, n |-> 1, u |-> -1, t |-> 0, sep |-> "s", srid |-> "GEO", tf |-> 3]
+CfgA == [e |-> 0, n |-> 1, u |-> 2, t |-> 3, sep |-> "c", srid |-> "ENU", tf |-> 1, near |-> "-"]
+CfgB == [e |-> 2, n |-> 1, u |-> -1, t |-> 0, sep |-> "s", srid |-> "GEO", tf |-> 3, near |-> "-"]
 \* A public call is one or several steps (pc): the CSV reader saves the read format, installs the TrackFormat's, parses,
 \* restores; the GPX writer saves the print format, installs the ISO one, writes, restores.  The library is sequential:
 \* a new public call starts only when pc = "idle".  Legacy = TRUE drops the two restore steps (self-test).
